@@ -294,7 +294,7 @@ def strip_docs_attrs(text, counts):
 # template processing
 # ----------------------------------------------------------------------------------------------
 ARG_RE = re.compile(r'(\w+)=("([^"]*)"|\S+)')
-SUB_RE = re.compile(r'^\s*(sig|sub|macro)\s+"((?:[^"\\]|\\.)*)"\s*=>\s*"((?:[^"\\]|\\.)*)"\s*(?:x(\d+))?\s*$')
+SUB_RE = re.compile(r'^\s*(sig|sub|macro)\s+"((?:[^"\\]|\\.)*)"\s*=>\s*"((?:[^"\\]|\\.)*)"\s*(?:x(\d+|\*))?\s*$')
 LABEL_RE = re.compile(r"//\s*\[([^\]]+)\]\s*$")
 SIDE_OK = re.compile(r"^\s*(requires|ensures|decreases|invariant|invariant_except_break|proof\s*\{|assert\b|assert\(|let ghost|broadcast use|recommends|no_unwind|opens_invariants|//|$)")
 
@@ -324,7 +324,8 @@ class Unit:
         self.labels = {}         # label -> dict(line, props, fn)
         self.cur_fn = None
         self.lenient = False     # lenient: sidecar blocks whose body anchor is lost are dropped instead of aborting
-        self.dropped = []
+        self.dropped = []           # sidecar blocks (proof hints / loop invariants) whose anchor is lost
+        self.dropped_rewrites = []  # rewrite rules whose pattern no longer occurs
 
     def emit(self, text, src=None):
         for l in text.split("\n"):
@@ -353,7 +354,7 @@ class Unit:
                     mm = SUB_RE.match(tl[i].strip()[3:])
                     if not mm:
                         raise ExtractError("%s:%d bad sub line" % (rel, i + 1))
-                    subs.append((mm.group(1), unesc(mm.group(2)), unesc(mm.group(3)), int(mm.group(4)) if mm.group(4) else None))
+                    subs.append((mm.group(1), unesc(mm.group(2)), unesc(mm.group(3)), (mm.group(4) if mm.group(4) == "*" else int(mm.group(4))) if mm.group(4) else None))
                     i += 1
                 self.do_item(args, subs, "%s:%d" % (rel, i))
             elif st.startswith("//@fn"):
@@ -397,8 +398,15 @@ class Unit:
             if kind != which:
                 continue
             c = text.count(old)
+            if cnt == "*":
+                # optional rewrite (call-site renames): applies wherever the pattern occurs, possibly nowhere
+                if c:
+                    text = text.replace(old, new)
+                    key = "sub*:%s" % old
+                    self.counts[key] = self.counts.get(key, 0) + c
+                continue
             if (c == 0 or (cnt is not None and c != cnt)) and getattr(self, "lenient", False) and c == 0:
-                self.dropped.append("rewrite \"%s\" in %s no longer applies" % (old, where))
+                self.dropped_rewrites.append("rewrite \"%s\" in %s no longer applies (the construct it rewrites is gone)" % (old, where))
                 continue
             if c == 0 or (cnt is not None and c != cnt):
                 raise ExtractError("lost anchor: rewrite \"%s\" expected %s occurrence(s) in %s, found %d"
@@ -452,7 +460,7 @@ class Unit:
                 mm = SUB_RE.match(st[3:])
                 if not mm:
                     raise ExtractError("%s:%d bad sig/sub line: %s" % (rel, ln, st))
-                subs.append((mm.group(1), unesc(mm.group(2)), unesc(mm.group(3)), int(mm.group(4)) if mm.group(4) else None))
+                subs.append((mm.group(1), unesc(mm.group(2)), unesc(mm.group(3)), (mm.group(4) if mm.group(4) == "*" else int(mm.group(4))) if mm.group(4) else None))
             elif st.startswith("//@contract"):
                 cur = ("contract", [])
                 sections.append(cur)
@@ -733,6 +741,7 @@ class Unit:
             "labels": self.labels,
             "line_src": [s for (t, s) in self.lines],
             "dropped_hints": self.dropped,
+            "dropped_rewrites": self.dropped_rewrites,
         }
 
 
